@@ -104,7 +104,10 @@ def _role_of_actual(a: ast.AST) -> str:
         return a.left.id
     if isinstance(a, ast.ListComp):
         it = text(a.generators[0].iter)
-        if it == 'indexes':
+        g0 = a.generators[0]
+        # the positions to solve, one-based: `[t + 1 for t in <the local list of positions>]`, whatever the list is called
+        if it == 'indexes' or (isinstance(g0.iter, ast.Name) and isinstance(g0.target, ast.Name) and isinstance(a.elt, ast.BinOp) and isinstance(a.elt.op, ast.Add)
+                               and text(a.elt.left) == g0.target.id and isinstance(a.elt.right, ast.Constant) and a.elt.right.value == 1 and not g0.ifs):
             return 'indexes'
         if it in ('self.check', "self.__dict__['check']"):
             return 'convergence_variables'
@@ -149,6 +152,35 @@ def r2_ffi_agreement(R, unit: FUnit) -> None:
         want = {'solved_values': 'solved_values', 'converged': 'converged', 'iteration': 'iteration', 'error_code': 'error_code',
                 'convergence_results': 'convergences', 'iterations': 'iterations', 'solution_error_codes': 'error_codes'}
         exp = [want.get(o, o) for o in outs]
+        if got != exp and set(got) != set(exp) and len(got) == len(exp):
+            # other names: matched by what each result is used for - the matrix is what is stored back into `self.values`, the
+            # error code(s) what is compared with integer literals
+            uses = {}
+            for x in ast.walk(f.fi.node):
+                if isinstance(x, ast.Assign) and len(x.targets) == 1 and text(x.targets[0]) == 'self.values' and isinstance(x.value, ast.Name):
+                    uses[x.value.id] = 'solved_values'
+                if isinstance(x, ast.Compare) and isinstance(x.left, ast.Name) and any(isinstance(c_, ast.Constant) and type(c_.value) is int and c_.value not in (0, 1) for c_ in ast.walk(x)):
+                    uses.setdefault(x.left.id, 'error_code')
+            # a name that is iterated together with others: the loop variable that is compared carries the role back
+            for x in ast.walk(f.fi.node):
+                if isinstance(x, ast.For) and is_call(x.iter, 'zip') or (isinstance(x, ast.For) and is_call(x.iter, 'enumerate') and x.iter.args and is_call(x.iter.args[0], 'zip')):
+                    z = x.iter if is_call(x.iter, 'zip') else x.iter.args[0]
+                    tg_ = x.target.elts[-1] if is_call(x.iter, 'enumerate') and isinstance(x.target, ast.Tuple) else x.target
+                    if isinstance(tg_, ast.Tuple) and len(tg_.elts) == len(z.args):
+                        for a_, t_ in zip(z.args, tg_.elts):
+                            if isinstance(a_, ast.Name) and isinstance(t_, ast.Name) and uses.get(t_.id) == 'error_code':
+                                uses[a_.id] = 'error_code'
+            pos0 = uses.get(got[0]) == 'solved_values'
+            posl = uses.get(got[-1]) == 'error_code'
+            misplaced = [g_ for i_, g_ in enumerate(got) if (uses.get(g_) == 'solved_values' and i_ != 0) or (uses.get(g_) == 'error_code' and i_ != len(got) - 1)]
+            if misplaced:
+                R.violation(q, f'ffi-results:{got}', f'results are unpacked as {got} but `{subname}` returns {outs} in that order: `{misplaced[0]}` is used as the '
+                            f'{uses[misplaced[0]]} and does not sit where the routine returns it', where=f.where(n))
+            elif pos0 and posl:
+                R.ok(q, f'the result tuple is unpacked in intent(out) order of `{subname}` (roles read from the uses of {got})')
+            else:
+                raise Unknown(f'{q}: the results of `{subname}` are unpacked into {got}: which is which was not read from their uses')
+            continue
         R.check(got == exp, q, f'ffi-results:{got}', f'the result tuple is unpacked in intent(out) order of `{subname}`',
                 f'results are unpacked as {got} but `{subname}` returns {outs} in that order', where=f.where(n))
     # internal calls
